@@ -4,7 +4,7 @@ import json, os
 os.chdir("/verif")
 m = json.load(open("seeded/matrix.json"))
 rows = []
-for s in sorted(d for d in os.listdir("seeded") if os.path.isdir(f"seeded/{d}")):
+for s in sorted(d for d in os.listdir("seeded") if os.path.isdir(f"seeded/{d}") and os.path.exists(f"seeded/{d}/meta.json")):
     meta = json.load(open(f"seeded/{s}/meta.json"))
     r = m.get(s, {})
     if r.get("neutralised") or meta.get("neutralised_by"):
